@@ -198,7 +198,7 @@ Bare(t) == IF ~IsType(t) THEN t
 Accepts(target, a) == \/ Bare(target) = Bare(a)
                       \/ (IsType(target) /\ target.k = "scalar" /\ target.sk = "any")
                       \/ (IsType(target) /\ target.k = "disj" /\ \E i \in DOMAIN target.branches : Bare(target.branches[i]) = Bare(a))
-KindName(t) == IF ~IsType(t) THEN "untyped" ELSE IF t.k = "scalar" THEN t.sk ELSE t.k
+KindName(t) == IF ~IsType(t) THEN "untyped" ELSE IF t.k = "scalar" THEN (IF t.val # VNil THEN "constant-" ELSE "") \o t.sk ELSE t.k
 ValueTypeV(a) ==
   IF a.value.k # "arg" \/ a.path = <<>> THEN {}
   ELSE LET it == a.path[Len(a.path)]
@@ -365,8 +365,10 @@ ApplyB(S, B, r) ==
          ELSE OK(MapB(S, B, r.sel, LAMBDA b :
                 LET names == SelectSeq(r.options, LAMBDA n : \E o \in Range(b.options) : SameFold(o.name, n))
                     optOf(n) == b.options[FirstIdx(b.options, LAMBDA o : SameFold(o.name, n))]
-                IN [b EXCEPT !.ctor.args = @ \o [x \in DOMAIN names |-> [optOf(names[x]).args[1] EXCEPT !.type.nullable = FALSE]],
-                             !.ctor.assigns = @ \o [x \in DOMAIN names |-> optOf(names[x]).assigns[1]]]))
+                \* "both arguments and assignments described by the options": every argument, every assignment
+                IN [b EXCEPT !.ctor.args = @ \o Flatten([x \in DOMAIN names |->
+                                                   [k \in DOMAIN optOf(names[x]).args |-> [optOf(names[x]).args[k] EXCEPT !.type.nullable = FALSE]]]),
+                             !.ctor.assigns = @ \o Flatten([x \in DOMAIN names |-> optOf(names[x]).assigns])]))
     [] r.r = "add_option" ->
          IF \E i \in DOMAIN B : BSel(S, r.sel, B[i]) /\ \E x \in DOMAIN r.option.assigns : ~VeneerAssignOK(S, B, B[i], r.option.assigns[x])
          THEN Err(B)
@@ -410,6 +412,9 @@ ReplaceAt(s, i, x) == [s EXCEPT ![i] = x]
 FirstUse(o, n) == LET hits == {i \in DOMAIN o.assigns : o.assigns[i].value.k = "arg" /\ o.assigns[i].value.arg.name = n}
                   IN IF hits = {} THEN 0 ELSE CHOOSE i \in hits : \A j \in hits : i <= j
 
+\* the assignment that stands for the option's first argument
+ArgAssignIdx(o) == LET use == FirstUse(o, o.args[1].name) IN IF use = 0 THEN 1 ELSE use
+
 Act(S, B, b, o, r) ==
   CASE r.r = "omit"   -> <<>>
     [] r.r = "rename" -> <<[o EXCEPT !.name = r.as]>>
@@ -448,7 +453,10 @@ Act(S, B, b, o, r) ==
     [] r.r = "struct_fields_as_arguments" ->
          LET st == FirstArgStruct(S, o) IN
          IF st.k # "struct" THEN <<o>>
-         ELSE LET prefix == o.assigns[1].path
+         \* the assignment of the first argument is the one that mentions it (the first one when none does):
+         \* arguments and assignments do not always go in pairs
+         ELSE LET ix == ArgAssignIdx(o)
+                  prefix == o.assigns[ix].path
                   fs == PickFields(st, r.fields)
                   free == SelectSeq(fs, LAMBDA f : ~IsConstant(f.type))
                   intoList == Last(prefix).type.k = "array"
@@ -457,15 +465,15 @@ Act(S, B, b, o, r) ==
                         THEN <<Assign(prefix, ValEnv(Last(prefix).type.elem, [i \in DOMAIN fs |-> EnvVal(FieldPath(fs[i]), valOf(fs[i]))]), "append", <<>>)>>
                         ELSE [i \in DOMAIN fs |->
                                 IF IsConstant(fs[i].type) THEN ConstAssign(prefix \o FieldPath(fs[i]), fs[i].type.val)
-                                ELSE Assign(prefix \o FieldPath(fs[i]), ValArg(ArgOf(fs[i])), o.assigns[1].method, ConsOf(fs[i]))]
+                                ELSE Assign(prefix \o FieldPath(fs[i]), ValArg(ArgOf(fs[i])), o.assigns[ix].method, ConsOf(fs[i]))]
               IN <<[o EXCEPT !.args = [i \in DOMAIN free |-> ArgOf(free[i])] \o Tail(o.args),
-                             !.assigns = as \o Tail(o.assigns),
+                             !.assigns = SubSeq(o.assigns, 1, ix - 1) \o as \o SubSeq(o.assigns, ix + 1, Len(o.assigns)),
                              !.def = NoDef]>>
     [] r.r = "struct_fields_as_options" ->
          LET st == FirstArgStruct(S, o) IN
          IF st.k # "struct" THEN <<o>>
          ELSE LET fs == PickFields(st, r.fields)
-              IN [i \in DOMAIN fs |-> [OptionOf(fs[i]) EXCEPT !.assigns[1].path = o.assigns[1].path \o @]]
+              IN [i \in DOMAIN fs |-> [OptionOf(fs[i]) EXCEPT !.assigns[1].path = o.assigns[ArgAssignIdx(o)].path \o @]]
     [] r.r = "disjunction_as_options" ->
          IF o.args = <<>> \/ r.index + 1 > Len(o.args) THEN <<o>>
          ELSE LET ix == r.index + 1
@@ -654,7 +662,7 @@ SameTargetV(S, pre, r, post) ==
          : i \in DOMAIN pre}
 
 \* struct_fields_as_options / struct_fields_as_arguments: "the same target" at the level of leaves (DESIGN 3.5):
-\* every unfolded field of the struct is assigned at <the option's path>.<field>
+\* every unfolded field of the struct is assigned at <the path of the first argument's assignment>.<field>
 FieldTargetsV(S, pre, r, post) ==
   UNION {LET b == pre[i]
              sel == SelOpts(r, b)
@@ -662,8 +670,8 @@ FieldTargetsV(S, pre, r, post) ==
              wants == UNION {LET o == sel[x]
                                  st == FirstArgStruct(S, o)
                              IN IF st.k # "struct" THEN {}
-                                ELSE IF Last(o.assigns[1].path).type.k = "array" THEN {}      \* unfolded into an envelope appended to the list
-                                ELSE {PathIds(o.assigns[1].path) \o <<f.name>> : f \in Range(PickFields(st, r.fields))}
+                                ELSE IF Last(o.assigns[ArgAssignIdx(o)].path).type.k = "array" THEN {}      \* unfolded into an envelope appended to the list
+                                ELSE {PathIds(o.assigns[ArgAssignIdx(o)].path) \o <<f.name>> : f \in Range(PickFields(st, r.fields))}
                              : x \in DOMAIN sel}
          IN IF sel = <<>> \/ wants = {} \/ Counterparts(b, post) = {} THEN {}
             ELSE IF \E j \in Counterparts(b, post) :
